@@ -138,17 +138,28 @@ func genFitness() *rapid.Generator[float64] {
 	return rapid.OneOf(rapid.Float64Range(0, 16), rapid.SampledFrom([]float64{0, 1, 4, 16, 15.5, -2.5, 1e200, 1e-200, 0.1}), rapid.Float64Range(-10, 1000))
 }
 
-func genOrgSpec() *rapid.Generator[OrgSpec] {
-	gg := genGenomeSpec(GenomeCfg{MinGenes: 1, MaxHidden: 4, MaxGenes: 10, TraitBase1: true})
+func genOrgSpec() *rapid.Generator[OrgSpec] { return genOrgSpecM(false) }
+
+// genOrgSpecM: with modular set, one organism in five carries a modular genome (records that are only held in memory: the
+// plain encoding of organisms has no syntax for modules)
+func genOrgSpecM(modular bool) *rapid.Generator[OrgSpec] {
+	plain := genGenomeSpec(GenomeCfg{MinGenes: 1, MaxHidden: 4, MaxGenes: 10, TraitBase1: true})
+	mod := genGenomeSpec(GenomeCfg{MinGenes: 1, MaxHidden: 4, MaxGenes: 10, TraitBase1: true, Modules: true})
 	return rapid.Custom(func(t *rapid.T) OrgSpec {
+		gg := plain
+		if modular && rapid.IntRange(0, 4).Draw(t, "modular champion") == 0 {
+			gg = mod
+		}
 		return OrgSpec{Genome: gg.Draw(t, "genome"), Fitness: genFitness().Draw(t, "fitness"), Error: rapid.Float64Range(0, 4).Draw(t, "error"),
 			IsWinner: rapid.Bool().Draw(t, "winner"), Generation: rapid.OneOf(rapid.IntRange(0, 100), rapid.IntRange(0, 100), rapid.SampledFrom([]int{255, 256, 65535, 65536, math.MaxInt32, 1 << 40})).Draw(t, "generation"),
 			ExpectedOffspring: rapid.Float64Range(0, 10).Draw(t, "expected offspring"), SpeciesAge: rapid.IntRange(0, 30).Draw(t, "species age")}
 	})
 }
 
-func genExpSpec() *rapid.Generator[ExpSpec] {
-	og := genOrgSpec()
+func genExpSpec() *rapid.Generator[ExpSpec] { return genExpSpecM(false) }
+
+func genExpSpecM(modular bool) *rapid.Generator[ExpSpec] {
+	og := genOrgSpecM(modular)
 	return rapid.Custom(func(t *rapid.T) ExpSpec {
 		e := ExpSpec{Id: rapid.OneOf(rapid.IntRange(0, 100), rapid.SampledFrom([]int{65536, math.MaxInt32, 1 << 40})).Draw(t, "id"), Name: rapid.StringMatching(`[a-zA-Z0-9 _-]{0,12}`).Draw(t, "name"),
 			MaxFitnessScore: rapid.SampledFrom([]float64{0, 1, 16}).Draw(t, "max fitness")}
@@ -205,7 +216,8 @@ func genExpSpec() *rapid.Generator[ExpSpec] {
 	})
 }
 
-// modelComplexity: nodes + enabled genes of a non-modular genome (the C11 model of the phenotype's complexity).
+// modelComplexity: the C11 model of the phenotype's complexity: nodes + enabled genes, and for every enabled module its control
+// node and one link per listed input and output.
 func modelComplexity(g GenomeSpec) int {
 	c := len(g.Nodes)
 	for _, gn := range g.Genes {
@@ -213,5 +225,21 @@ func modelComplexity(g GenomeSpec) int {
 			c++
 		}
 	}
+	for _, m := range g.Modules {
+		if m.En {
+			c += 1 + len(m.Ins) + len(m.Outs)
+		}
+	}
 	return c
+}
+
+func hasModularChampion(s ExpSpec) bool {
+	for _, t := range s.Trials {
+		for _, g := range t.Generations {
+			if len(g.Champion.Genome.Modules) > 0 {
+				return true
+			}
+		}
+	}
+	return false
 }
